@@ -246,7 +246,11 @@ template<class E> struct verif_builder<std::vector<E>> { static std::vector<E> g
     # the store
     if backend == "atlas":
         out.append('#include "verif_fw_atlas.h"')
-        lines = ["struct VerifEvtStore {"]
+        names_ = list(store_colls) + [spec.container for spec in dm.colls.values() if spec.singleton and spec.container in alltext]
+        lines = ["template <class T> struct VerifStoreName { static const char* n() { return \"?\"; } };"]
+        for nm_ in dict.fromkeys(names_):
+            lines.append(f'template <> struct VerifStoreName<{nm_}> {{ static const char* n() {{ return "{nm_}"; }} }};')
+        lines.append("struct VerifEvtStore {")
         for name, t in store_colls.items():
             lines.append(f"""  StatusCode retrieve(const {name}*& r, const std::string& key) {{
     std::cout << "REQUEST retrieve {name} " << key << "\\n";
@@ -262,6 +266,9 @@ template<class E> struct verif_builder<std::vector<E>> { static std::vector<E> g
     auto it = vrt::cur()->store.find({{"{spec.container}", key}});
     if (it == vrt::cur()->store.end() || !it->second.present) return StatusCode::FAILURE;
     r = verif_obj<{spec.container}>(it->second.base); return StatusCode::SUCCESS; }}""")
+        lines.append("""  template <class T> bool contains(const std::string& key) const {
+    auto it = vrt::cur()->store.find({VerifStoreName<T>::n(), key});
+    return it != vrt::cur()->store.end() && it->second.present; }""")
         lines.append("};")
         lines.append("inline VerifEvtStore* verif_store() { static VerifEvtStore s; return &s; }")
         out.append("\n".join(lines))
